@@ -23,6 +23,11 @@ class CheckFailed(Exception):
     pass
 
 
+class ReplayEnd(BaseException):
+    """the recorded path ends here (the symbolic run recorded its
+    counterexample before the next fork)"""
+
+
 # ---------------------------------------------------------------------------
 # math helpers, symbolic flavour
 # ---------------------------------------------------------------------------
@@ -305,7 +310,7 @@ class ConcCtx:
         options = list(options)
         if self.choices is not None:
             if not self.choices:
-                raise CheckFailed("replay ran out of recorded choices")
+                raise ReplayEnd()
             return options[self.choices.pop(0)]
         return self.rng.choice(options)
 
